@@ -78,6 +78,20 @@ def generate(rs: int, tier: str, index: int) -> dict:
         lit["coefficients"] = [[float(numpy.dtype(lit["dtype"]).type(v)) for v in col] for col in lit["coefficients"]]
     if kindc == "complex" and ch.chance(0.15):
         lit["dtype"] = "complex64"
+    cb = ch.sub("bigexp")
+    if not sympy_case and cb.chance(0.12):
+        # exponents whose bytes do not order like their values (256 against 3, 65536 against 255, ...)
+        big = [255, 256, 257, 300, 511, 512, 513, 65535, 65536, 65537, 70000]
+        seen = {tuple(e) for e in lit["exponents"]}
+        for e in lit["exponents"]:
+            if sum(e) and cb.chance(0.6):
+                new = list(e)
+                j = cb.below(len(new))
+                new[j] = cb.choice(big)
+                if tuple(new) not in seen:
+                    seen.discard(tuple(e))
+                    seen.add(tuple(new))
+                    e[:] = new
     exp_sign, mul_sign = ("**", "*") if sympy_case else ch.choice(DISPLAY_SIGNS)
     display = {"display_graded": ch.chance(0.5), "display_reverse": ch.chance(0.5), "display_inverse": ch.chance(0.5),
                "display_exponent": exp_sign, "display_multiply": mul_sign}
